@@ -13,6 +13,7 @@ int64_t g_now = 0;
 int g_jitter = 0;
 long g_rng_draws = 0;
 QString g_hostname = QStringLiteral("vm");
+int g_node = 0;
 static Dispatcher *g_disp = nullptr;
 Dispatcher *dispatcher()
 {
@@ -25,6 +26,7 @@ void resetScript()
     g_jitter = 0;
     g_rng_draws = 0;
     g_hostname = QStringLiteral("vm");
+    g_node = 0;
 }
 }  // namespace vt
 
